@@ -164,16 +164,21 @@ static void ctl_hook(int pt, const void * a, const void * b, long v) {
   ctl_events++;
   int abspt = spin ? -pt : pt;
   if (abspt == MYTH_VP_BLOCK_CB_BEGIN) ctl_cbfor[p] = ctl_tag_of(b);
-  if (!spin || abspt != MYTH_VP_SCHED_IDLE) {
+  if (!spin || abspt != MYTH_VP_SCHED_IDLE || getenv("CTL_LOG_IDLE")) {
     if (ctl_log) {
       char sa[24], sb[24], sc[24];
       int cur = ctl_cbfor[p];
       if (cur < 0) cur = ctl_tag_of((const void *)myth_self());
       ctl_fmt(sa, sizeof sa, a); ctl_fmt(sb, sizeof sb, b);
       snprintf(sc, sizeof sc, "%d", cur);
-      fprintf(ctl_log, "ev %d %s %s%s %s %s %ld\n", p, cur < 0 ? "-" : sc, spin ? "SPIN_" : "", ctl_ptname(pt), sa, sb, v);
+      if (abspt >= MYTH_VP_DESC_GET && abspt <= MYTH_VP_STACK_FREE)   /* ledger events carry the raw block address */
+        fprintf(ctl_log, "ev %d %s %s%s %s %s %ld @%lx\n", p, cur < 0 ? "-" : sc, spin ? "SPIN_" : "", ctl_ptname(pt), sa, sb, v, (unsigned long)b);
+      else
+        fprintf(ctl_log, "ev %d %s %s%s %s %s %ld\n", p, cur < 0 ? "-" : sc, spin ? "SPIN_" : "", ctl_ptname(pt), sa, sb, v);
     }
   }
+  /* a released descriptor loses its thread name (the block will be recycled) */
+  if (abspt == MYTH_VP_DESC_FREE) for (int i = 0; i < ctl_nth; i++) if (ctl_thp[i] == b) ctl_thp[i] = 0;
   if (abspt == MYTH_VP_BLOCK_CB_END) ctl_cbfor[p] = -1;
   if (spin) {
     ctl_spin_run++;
@@ -212,6 +217,9 @@ static void ctl_note(const char * fmt, ...) {
     pthread_mutex_unlock(&ctl_mu);
   }
 }
+
+/* a busy-wait iteration in a test program: lets the controller run somebody else */
+static void ctl_spin(void) { ctl_hook(-MYTH_VP_SCHED_IDLE, 0, 0, 0); }
 
 /* configure from the environment: CTL_SEED, CTL_LOG, CTL_REPLAY, CTL_SCHED_OUT, CTL_SWITCH_DEN */
 static void ctl_init(int nworkers) {
